@@ -19,6 +19,7 @@ def run(tier, seed):
     br, ob = fw.standard_prelude(chk, with_coqchk=(tier == "thorough"))
     rng = chk.rng
     B = regrun.RegBench(chk, br)
+    B.O.chain_log = []
     quick = tier == "quick"
     # 1. verify_safetynet_timestamp directly, ms resolution, fractional clock
     vst = sys.modules.get("webauthn.helpers.verify_safetynet_timestamp")
@@ -134,6 +135,8 @@ def run(tier, seed):
     # 5. thorough: real clock, no substitution of the time source
     if not quick:
         real_clock_run(chk)
+    from harness import chainview
+    chainview.cross_check(chk, B.R, B.O.chain_log)
     B.close()
     return fw.finish(chk, ob, br, TRUSTED,
                      ["clock truncation: the code uses int(time.time()); the statement carries the resulting one-second tolerance",
